@@ -5,4 +5,6 @@ package timeutil
 // Contracts for the deductive verifier in /verif (govc); comments only.
 
 /*@
+func (*Duration).UnmarshalText
+  requires d != nil
 @*/
